@@ -435,6 +435,52 @@ def _chunks_enc(res, arg, tier):
     res.outcomes.add(h64(('enc', enc, given)))
 
 
+# ---------------- one incremental object, several documents: after reset() it treats the next document like a fresh object
+RESET_FIRST = ['@charset "utf-8";a', 'a{}', '@charset "x";\xe9']
+
+
+def _reset_reuse(res, arg, tier):
+    ti, enc = arg
+    text = _concrete(_texts(tier)[ti], enc)
+    if not representable(text, enc):
+        return
+    want_bytes = ref.encode(text, enc)
+    try:
+        want_text = ref.decode(want_bytes, enc, True)
+    except UnicodeError:
+        want_text = None
+    for first in RESET_FIRST:
+        if not representable(first, enc):
+            continue
+        case = {'kind': 'reset-reuse', 'text': text, 'encoding': enc, 'first': first}
+        res.evaluations += 1
+        res.clauses['C07.chunks.reset'] += 1
+        first_bytes = ref.encode(first, enc)
+        for cut in range(len(text) + 1):
+            res.transitions += 1
+            obj = cc.IncrementalEncoder(encoding=enc)
+            obj.encode(first, True)
+            obj.reset()
+            got = obj.encode(text[:cut], False) + obj.encode(text[cut:], True)
+            if got != want_bytes:
+                res.violation('C07.chunks.encoder', f'after-reset|{_diff_kind(want_bytes, got)}|first={_tclass(first)}', dict(case, cut=cut, what='encoder'),
+                              _show(want_bytes), _show(got))
+                break
+        if want_text is None:
+            continue
+        for cut in range(len(want_bytes) + 1):
+            res.transitions += 1
+            obj = cc.IncrementalDecoder(encoding=enc, force=True)
+            obj.decode(first_bytes, True)
+            obj.reset()
+            got = obj.decode(want_bytes[:cut], False) + obj.decode(want_bytes[cut:], True)
+            if got != want_text:
+                res.violation('C07.chunks.decoder', f'after-reset|{_diff_kind(want_text, got)}|first={_tclass(first)}', dict(case, cut=cut, what='decoder'),
+                              _show(want_text), _show(got))
+                break
+    res.outcomes.add(h64(('reset', enc, _tclass(text))))
+
+
 READ_SIZES = [1, 2, 3, 5, 64, -1]
 
 
@@ -555,6 +601,7 @@ def plan(tier):
                     if given is None and not force:
                         continue
                     shards.append(('chunks-dec', [ti, enc, given, force]))
+            shards.append(('reset-reuse', [ti, enc]))
             for given in (True, False):
                 shards.append(('chunks-enc', [ti, enc, given]))
                 shards.append(('stream-read', [ti, enc, given]))
@@ -587,6 +634,8 @@ def run_shard(shard, tier, seed):
             _stream_read(res, arg, tier)
         elif kind == 'stream-write':
             _stream_write(res, arg, tier)
+        elif kind == 'reset-reuse':
+            _reset_reuse(res, arg, tier)
     return res
 
 
@@ -616,6 +665,8 @@ def replay(case, tier, seed):
         elif k == 'chunks-dec':
             given = None if case['mode'][0] == 'auto' else enc
             _chunks_dec(res, [ti, enc, given, case['mode'][1]], 'thorough')
+        elif k == 'reset-reuse':
+            _reset_reuse(res, [ti, enc], 'thorough')
         elif k == 'chunks-enc':
             _chunks_enc(res, [ti, enc, case['mode'] == 'given'], 'thorough')
         elif k == 'stream-read':
